@@ -3,7 +3,7 @@
 import l_layout
 from l_layout import impl, spec_cases, describe, build, console, lines_at, outcome, FIX_D20   # noqa: F401
 
-OPS = {"c09": {}, "c09_hist": {}, "text_measure": {}, "text_at_max": {}}
+OPS = {"c09": {}, "c09_hist": {}, "c09_get": {}, "text_measure": {}, "text_at_max": {}}
 
 
 def generate(rng, tier):
